@@ -143,21 +143,23 @@ type Front interface {
 
 // Env is one running history.
 type Env struct {
-	Front    func(w *Wallet) Front // if set, about half of the front-able calls go through it
-	logSeen  map[string]int64
-	Run      *vh.Run
-	Prop     string
-	CaseIdx  int
-	Rng      *vh.Rng
-	Dir      string
-	W        *Wallet
-	M        *Model
-	Trace    []string
-	LogDir   string
-	Wrap     Wrap
-	passSeq  int
-	Restarts int
-	Signed   int
+	heldDeleted []*pocec.PrivateKey   // key objects of keystores deleted while unlocked (inspected at the next Lock)
+	extraScan   [][]byte              // error texts handed back to callers since the last scan (they end up in API logs and replies)
+	Front       func(w *Wallet) Front // if set, about half of the front-able calls go through it
+	logSeen     map[string]int64
+	Run         *vh.Run
+	Prop        string
+	CaseIdx     int
+	Rng         *vh.Rng
+	Dir         string
+	W           *Wallet
+	M           *Model
+	Trace       []string
+	LogDir      string
+	Wrap        Wrap
+	passSeq     int
+	Restarts    int
+	Signed      int
 	// options
 	ScanSecrets bool
 	SignAll     bool
@@ -171,7 +173,7 @@ var passAlphabet = []byte("0123456789abcdefghijklmnopqrstuvwxyzABCDEFGHIJKLMNOPQ
 // FreshPass returns a well-formed 24-character passphrase that cannot occur by accident.
 func FreshPass(r *vh.Rng) []byte {
 	n := r.Range(12, 40) // lengths vary: code that copies a passphrase into a buffer of the old length must show
-	switch r.Intn(8) { // the boundaries of the legal lengths are favoured: code that truncates or pads at them must show
+	switch r.Intn(8) {   // the boundaries of the legal lengths are favoured: code that truncates or pads at them must show
 	case 0, 1:
 		n = 40
 	case 2:
@@ -582,9 +584,25 @@ func (e *Env) Do(op Op) Res {
 		pass, pc := e.pass(op.PC)
 		res.Note = pc
 		e.Trace[len(e.Trace)-1] += fmt.Sprintf(" pass=%s(%s)", pass, pc)
+		// key objects of this keystore handed out while unlocked: a deleted keystore's scalars are checked at the next
+		// Lock together with those of the keystores that stay
+		var doomed []*pocec.PrivateKey
+		if !m.Locked && k != nil {
+			for _, am := range w.M.GetManagedAddrManager() {
+				if am.Name() != id {
+					continue
+				}
+				for _, ma := range am.ManagedAddresses() {
+					if pk := ma.PrivKey(); pk != nil && pk.D != nil && len(doomed) < 32 {
+						doomed = append(doomed, pk)
+					}
+				}
+			}
+		}
 		ok, err := w.M.DeleteKeystore(id, pass)
 		res.Err, res.Ack = err, err == nil && ok
 		if res.Ack {
+			e.heldDeleted = append(e.heldDeleted, doomed...)
 			if k == nil {
 				e.Report([]string{"C02"}, "delete-of-unknown-keystore-acknowledged", nil, nil)
 				break
@@ -767,6 +785,34 @@ func (e *Env) Do(op Op) Res {
 		res.Err, res.Ack = ierr, false
 		e.Trace[len(e.Trace)-1] += fmt.Sprintf(" export_of=%s field=%s mutation=%s err=%v", ex.ID, tc.Field, tc.Mutation, ierr)
 		e.Run.Count("damaged_backups_restored_with_the_right_passphrase", 1)
+	case "import-with-write-fault":
+		// a backup restored (right passphrase) into a scratch wallet whose store fails one write of the import: the
+		// import is expected to fail; the error it returns (the API logs it and hands it to the caller) and the log
+		// are scanned like everything else
+		if len(m.Exports) == 0 {
+			res.Note = "skipped"
+			break
+		}
+		ex := m.Exports[((op.X%len(m.Exports))+len(m.Exports))%len(m.Exports)]
+		od := filepath.Join(e.Dir, fmt.Sprintf("faulty-wallet-%d", len(e.Trace)))
+		var fdb *FaultDB
+		ow, oerr := Create(od, FreshPass(e.Rng), func(d db.DB) db.DB { fdb = NewFaultDB(d); return fdb })
+		if oerr != nil || fdb == nil {
+			res.Note = "skipped"
+			break
+		}
+		at := 1 + e.Rng.Intn(24)
+		fdb.Arm(FaultPlan{Kind: "write", At: at})
+		_, _, ierr := ow.M.ImportKeystore(ex.JSON, append([]byte{}, ex.Pass...), nil)
+		fdb.Disarm()
+		ow.Close()
+		os.RemoveAll(od)
+		res.Err, res.Ack = ierr, false
+		e.Trace[len(e.Trace)-1] += fmt.Sprintf(" export_of=%s failed_write=%d fired=%v err=%v", ex.ID, at, fdb.Fired, ierr)
+		e.Run.Count("imports_with_a_failed_store_write", 1)
+		if ierr != nil {
+			e.extraScan = append(e.extraScan, []byte(ierr.Error()))
+		}
 	case "import-into-pubpass-wallet":
 		// a backup restored into an EMPTY wallet whose PUBLIC passphrase happens to be the backup's passphrase, new
 		// passphrase omitted: if the wallet takes it, its private material must still not open with the public passphrase
@@ -797,7 +843,8 @@ func (e *Env) Do(op Op) Res {
 	case "lock":
 		// key objects somebody obtained while the wallet was unlocked (the addresses NextAddresses returns carry them):
 		// Lock must wipe the scalars themselves, not only drop the wallet's references to them
-		var held []*pocec.PrivateKey
+		held := e.heldDeleted
+		e.heldDeleted = nil
 		if !m.Locked {
 			for _, am := range w.M.GetManagedAddrManager() {
 				for _, ma := range am.ManagedAddresses() {
@@ -1377,6 +1424,7 @@ func (e *Env) Secrets() map[string][]byte {
 				PrivKey() ([]byte, error)
 			}{"root": k.D.Root, "purpose": k.D.Purpose, "coin": k.D.Coin, "account": k.D.Acct, "branch0": k.D.Branch[0], "branch1": k.D.Branch[1]} {
 				add("xprv-"+name+":"+id, []byte(x.String()))
+				add("xprv-"+name+":hex-of-text:"+id, []byte(hex.EncodeToString([]byte(x.String()))))
 				if b, err := x.PrivKey(); err == nil {
 					pad := make([]byte, 32)
 					copy(pad[32-len(b):], b)
@@ -1404,6 +1452,7 @@ func (e *Env) Secrets() map[string][]byte {
 			addAll("scrypt-master-key-public:"+id, tk.MasterPub)
 			if tk.RootXprv != "" {
 				add("xprv-root-from-store:"+id, []byte(tk.RootXprv))
+				add("xprv-root-from-store:hex-of-text:"+id, []byte(hex.EncodeToString([]byte(tk.RootXprv))))
 			}
 		}
 	}
@@ -1457,6 +1506,10 @@ func (e *Env) scan(res Res) {
 	for p, b := range ReadExtra(e.Dir) {
 		files[p] = b
 	}
+	for i, b := range e.extraScan {
+		files[filepath.Join(e.LogDir, fmt.Sprintf("error-returned-to-caller#%d", i))] = b
+	}
+	e.extraScan = nil
 	var total int
 	for fname, content := range files {
 		total += len(content)
